@@ -111,22 +111,11 @@ Definition cond_nonempty (c : wcond) : bool :=
 Definition kind_nonempty (k : kind) : bool := match k with KList _ ne => ne | KObj _ _ => true | _ => false end.
 
 (* every well-formed value of the kind passes the condition *)
-Definition never_falsy_class (c : string) : bool :=
-  match sfind c M with
-  | Some [(a, KList _ ne)] => negb (String.eqb a items_attr) || ne
-  | Some [(a, _)] => negb (String.eqb a items_attr)
-  | Some _ => true
-  | None => false end.
 Definition always_emits (k : kind) (c : wcond) : bool :=
   match c with
   | WAlways => true
   | WNotNone => match k with KStr false | KEnum _ false | KObj _ false | KBool | KList _ _ | KLevel _ | KClass => true | _ => false end
-  | WTruthy =>
-    match k with
-    | KStr false | KEnum _ false => true
-    | KObj cs false => forallb never_falsy_class cs
-    | KList _ true => true
-    | _ => false end
+  | WTruthy => match k with KStr false | KEnum _ false | KList _ true => true | _ => false end
   | _ => false
   end.
 
@@ -176,22 +165,22 @@ Definition xtriple_ok (t : xtriple) : bool :=
 Definition xconforms : bool := forallb xtriple_ok XT.
 Definition xnonconforming : list xtriple := filter (fun t => negb (xtriple_ok t)) XT.
 
-(* the environment: every top-level list of the writer is a list part of the root class, in order *)
-Definition xenv_ok (root : string) (tops : list (string * string * string * string)) : bool :=
+(* the environment: every top-level list of the writer is an optional list part of the root class, in order *)
+Fixpoint tops_align (tops : list toplist) (parts : list xpart) : bool :=
+  match tops with
+  | [] => forallb x_opt parts
+  | t :: tops' =>
+    match drop_until (tl_list t) parts with
+    | Some (p, rest) =>
+      x_opt p &&
+      match x_ty p with
+      | XList itag (XCls g) => String.eqb itag (tl_item t) && xtmem (tl_fn t, tl_cls t, TCls g) XT
+      | _ => false end && tops_align tops' rest
+    | None => false end
+  end.
+Definition xenv_ok (root : string) (tops : list toplist) : bool :=
   match parts_of root with
-  | Some parts =>
-    (fix go (tops : list (string * string * string * string)) (parts : list xpart) : bool :=
-       match tops with
-       | [] => forallb x_opt parts
-       | (lt, it, fn, c) :: tops' =>
-         match drop_until lt parts with
-         | Some (p, rest) =>
-           x_opt p &&
-           match x_ty p with
-           | XList itag (XCls g) => String.eqb itag it && xtmem (fn, c, TCls g) XT
-           | _ => false end && go tops' rest
-         | None => false end
-       end) tops parts
+  | Some parts => nodup_tags (map x_tag parts) && tops_align tops parts
   | None => false
   end.
 End XConf.
